@@ -582,7 +582,7 @@ namespace hs
                 p.add("next", {obj()});
                 break;
             case 7:
-                p.add("shrink", {obj()});
+                p.add("shrink", {obj(), r.chance(1, 3) ? (long long)r.below(4) : 0});
                 break;
             case 8:
                 if (is_pool && r.chance(1, 4))
